@@ -98,6 +98,21 @@ pub fn strict_parse(text: &str, padded: bool) -> Result<(usize, usize, Vec<(usiz
     Ok((nrows, ncols, by_col))
 }
 
+/// fmt::Write sink that refuses to grow beyond `cap` bytes
+struct Limited {
+    s: String,
+    cap: usize,
+}
+impl std::fmt::Write for Limited {
+    fn write_str(&mut self, t: &str) -> std::fmt::Result {
+        if self.s.len() + t.len() > self.cap {
+            return Err(std::fmt::Error);
+        }
+        self.s.push_str(t);
+        Ok(())
+    }
+}
+
 fn gen_matrix(rng: &mut Rng, idx: u64) -> Mat {
     let (maxr, maxc) = if idx % 8 == 7 { (30, 40) } else { (8, 10) };
     let rows = rng.range(1, maxr);
@@ -381,8 +396,19 @@ pub fn run(run: &mut Run) {
         for padded in [true, false] {
             l.eval();
             let form = if padded { "alist()" } else { "alist_no_padding()" };
-            // run the writer in a thread-free guarded call; non-termination is
-            // bounded by the check-level watchdog (see check script)
+            // first through a size-limited writer: a writer that does not terminate (e.g. an
+            // unbounded padding loop in a build without overflow checks) runs into the limit
+            // and is observed as such instead of hanging the monitor
+            let bound = 64 + 24 * (m.rows + m.cols + 2) + 12 * (m.e.len() * 2 + (m.rows + m.cols) * (m.rows.max(m.cols) + 1));
+            let mut lim = Limited { s: String::new(), cap: bound };
+            let lw = guard(|| if padded { h.write_alist(&mut lim) } else { h.write_alist_no_padding(&mut lim) });
+            if let Ok(Err(_)) = lw {
+                l.violation(
+                    format!("{} writer does not terminate within a generous size bound on a {} matrix", form, m.family),
+                    m.json().set("form", form).set("bytes_written_before_cut", lim.s.len()).set("bound", bound).set("head", lim.s.chars().take(200).collect::<String>()),
+                );
+                continue;
+            }
             let text = match guard(|| if padded { h.alist() } else { h.alist_no_padding() }) {
                 Ok(t) => t,
                 Err(p) => {
